@@ -2,7 +2,11 @@ import Comrak.Props.C03
 open Comrak.C03
 #print axioms inlines_canon
 #print axioms block_canon
+#print axioms table_canon
+#print axioms items_canon
+#print axioms footnotes_canon
 #print axioms refHtml_eq_renderHtml_of_safe
 #print axioms refHtml_eq_renderHtml_canon
 #print axioms shape_canon
+#print axioms toTreeP_erase_canon
 #print axioms math_info_counterexample
